@@ -53,11 +53,15 @@ def gen_request(rng, schema, ds, opts):
     elif rr < 0.3:
         for i, l in enumerate(lines):
             if l.startswith("Columns:"):
-                extra = rng.choice([" nosuchcolumn", " name name", " host_nosuch", ""])
+                extra = rng.choice([" nosuchcolumn", " name name", " host_nosuch", "", " na\x01me", " del\x7fx", " q\"uote", " back\\slash", " \U000e0001x", " b\x08s f\x0cf", " \x1b[0m"])
                 lines[i] = l + extra
+                if not extra.isascii() or any(ord(ch) < 32 or ord(ch) == 127 or ch in '"\\' for ch in extra):
+                    # names that need escaping show in the column-name row
+                    if rng.random() < 0.7:
+                        lines.append("ColumnHeaders: on")
     if rng.random() < 0.6:
         lines.append("ResponseHeader: fixed16")
-    if rng.random() < 0.3:
+    if rng.random() < 0.3 and not any(l.startswith("ColumnHeaders:") for l in lines):
         lines.append("ColumnHeaders: " + rng.choice(["on", "off"]))
     return "\n".join(lines) + "\n\n"
 
